@@ -114,7 +114,8 @@ def run(ctx):
     res.check(len(fc) == 1 and not so.calls_to(r"rfind|rposition|::rev$|last$"), "R13.3", "split_once-first", so.where(), "split_once cuts at find(needle) (first occurrence)",
               "split_once no longer cuts at the first occurrence")
     fd = fx.body("<std::ffi::os_str::OsStr as clap_lex::ext::OsStrExt>::find")
-    res.check(bool(fd.calls_to(r"Iterator>?::find$")) and not fd.calls_to(r"rfind|rposition|::rev$"), "R13.3", "find-first", fd.where(), "find scans 0..=len-needle.len() forward",
+    fms = first_match_scan(fx, fd)
+    res.check(bool(fms) and fms["first"], "R13.3", "find-first", fd.where(), "find scans 0..=len-needle.len() forward",
               "OsStrExt::find no longer returns the first match")
 
     # ---- R13.5 next_value_os exhausts the iterator: every path that returns Some clears invalid_suffix, and the
